@@ -2,6 +2,7 @@
 
 import typing
 import typing as t
+import unicodedata
 
 from . import nodes
 from .exceptions import TemplateAssertionError
@@ -905,6 +906,15 @@ class Parser:
                     # Parsing a kwarg
                     ensure(dyn_kwargs is None)
                     key = self.stream.current.value
+                    # Python compares identifiers in their NFKC form.
+                    norm = unicodedata.normalize("NFKC", key)
+                    if any(
+                        unicodedata.normalize("NFKC", k.key) == norm for k in kwargs
+                    ):
+                        self.fail(
+                            f"keyword argument {key!r} repeated",
+                            self.stream.current.lineno,
+                        )
                     self.stream.skip(2)
                     value = self.parse_expression()
                     kwargs.append(nodes.Keyword(key, value, lineno=value.lineno))
